@@ -82,13 +82,12 @@ static void showStr(char *const &s, std::ostream &o) { o << tohex(s, strlen(s));
 static void showInt(const int &v, std::ostream &o) { o << v; }
 static int intCompare(const int &a, const int &b) { return a - b; }
 
-// A case that does not finish within this much CPU time is reported as HANG
-// (the Merge() loop can fail to make progress; CPU time, not wall time, so
-// that machine load cannot cause it).
+// A case that does not finish within this much CPU time ends the process (the
+// Merge() loop can fail to make progress); the driver then records a crash
+// for exactly this case. CPU time, not wall time, so that machine load cannot
+// cause it.
 static void onCpuLimit(int)
 {
-    static const char msg[] = "HANG\n";
-    (void)!write(1, msg, sizeof(msg) - 1);
     _exit(3);
 }
 static void armCpuLimit(long ms)
@@ -108,7 +107,7 @@ int main()
         if (a.empty()) { std::cout << "\n"; continue; }
         const std::string &op = a[0];
         std::ostringstream o;
-        armCpuLimit(1500);
+        armCpuLimit(5000);
         try {
             if (op == "mdn") {
                 std::string h = unhex(a.at(1)), d = unhex(a.at(2));
